@@ -49,7 +49,7 @@ def cases(desc):
             # whole-array overwrite through the values setter, followed by an index assignment
             ak = rng.choice('fi')
             sp = gen.spec(rng, mindim=1, maxdim=3, minsize=1, maxsize=4, dtype=ak)
-            yield {"block": "valset", "a": sp, "ak": ak, "rk": rng.choice(['same', 'same', 'float', 'int', 'list']), "seed": rng.randrange(10 ** 6)}
+            yield {"block": "valset", "a": sp, "ak": ak, "rk": rng.choice(['same', 'same', 'float', 'int', 'list', 'ownview']), "seed": rng.randrange(10 ** 6)}
             continue
         yield gen_case(rng)
 
@@ -90,6 +90,10 @@ def gen_case(rng, ak=None, vk=None, form=None, iks=None, cast=None, spelling=Non
     spelling = spelling or rng.choice(SPELLINGS)
     idx, ikinds = [], []
     if spelling == 'ndmask':
+        if nd >= 2 and rng.random() < 0.3:
+            # equal-sized dimensions (a mask whose dimensions are listed in another order is shape-compatible)
+            n_ = rng.randint(2, 3)
+            sp = gen.spec(rng, ndim=nd, sizes=[n_] * nd, dtype=ak)
         mask = np.array([rng.random() < 0.4 for _ in range(sp["values"].size)], dtype=bool).reshape(sp["values"].shape)
         if nd < 2:
             spelling = 'put'
@@ -202,7 +206,10 @@ def check_valset(case, ctx):
     v0 = np.array(sp["values"], copy=True)
     rk = case["rk"]
     ids = np.array(rng.sample(range(5000, 9000), max(1, v0.size))[:v0.size]).reshape(v0.shape)
-    if rk == 'same':
+    if rk == 'ownview':
+        # a result fed back: the right-hand side is a view of the array's own buffer in another element order
+        rhs = a.values[::-1] if v0.shape[0] > 1 or v0.ndim == 1 else a.values[:, ::-1]
+    elif rk == 'same':
         rhs = ids.astype(v0.dtype)
     elif rk == 'float':
         rhs = ids + 0.5
@@ -210,7 +217,7 @@ def check_valset(case, ctx):
         rhs = ids.astype(np.int64)
     else:
         rhs = ids.astype(v0.dtype).tolist()
-    exp = np.asarray(rhs)
+    exp = np.array(rhs, copy=True)
     if v0.dtype.kind == 'f':
         exp = exp.astype(float)
     before_axes = tuple(monitors.snap_axis(ax) for ax in a.axes)
@@ -229,7 +236,7 @@ def check_valset(case, ctx):
         return ('valset', rk, 'mismatch')
     if tuple(monitors.snap_axis(ax) for ax in a.axes) != before_axes or monitors.freeze(a.attrs) != before_attrs:
         ctx.v(ID, "valset:axes-or-attrs", "%s changed the axes or the metadata" % label)
-    if not isinstance(rhs, np.ndarray) or not exp.size:
+    if not isinstance(rhs, np.ndarray) or not exp.size or rk == 'ownview':
         return ('valset', rk, v0.dtype.kind, v0.ndim)
     # the array that was assigned from and `a` stay independent: an index assignment into `a` changes exactly that cell of `a`
     r0 = rhs.copy()
@@ -268,9 +275,25 @@ def check(case, ctx):
         ev = ev.astype(cast_dtype(ev.dtype, rhs))
     # ---- expected cells
     bexc = None
+    mask_reordered = None
     if spelling == 'ndmask':
         mask = case["mask"]
         coords = [tuple(c) for c in np.argwhere(mask)]
+        if case["mask_as_da"] and len(set(mask.shape)) == 1 and mask.ndim >= 2 and hasattr(a, '_constructor'):
+            # a labelled mask that lists the array's dimensions in another order (e.g. computed from a transposed array).  The cells it
+            # designates are, by the statement, the cells the same index reads: asked of the library itself on a twin whose values
+            # number its cells
+            mr_ = a._constructor(mask.copy(), [ax.copy() for ax in list(a.axes)[::-1]])
+            tw_ = a._constructor(np.arange(mask.size, dtype=float).reshape(mask.shape), a.axes.copy())
+            try:
+                rd_ = tw_[mr_]
+                cells_ = [int(x) for x in np.asarray(rd_.values if common.is_da(rd_) else rd_).ravel()]
+                if len(cells_) == len(coords):
+                    coords = [tuple(int(q) for q in np.unravel_index(c_, mask.shape)) for c_ in cells_]
+                    mask_reordered = mr_
+                    ctx.outcomes['ndmask-dimarray-dims-in-another-order'] += 1
+            except Exception:
+                pass
         try:
             rhs_b = list(np.broadcast_to(np.asarray(rhs, dtype=object if isinstance(rhs, str) else None), (len(coords),)).tolist()) if not np.isscalar(rhs) or True else None
             if isinstance(rhs, np.ndarray):
@@ -313,6 +336,8 @@ def check(case, ctx):
         mobj = mk
         if case["mask_as_da"]:
             mobj = a._constructor(mk.copy(), a.axes.copy()) if hasattr(a, '_constructor') else mk
+            if mask_reordered is not None:
+                mobj = mask_reordered
         if case["via"] == 'setitem' and inplace and not cast:
             label = "a[ndmask] = %s" % codec.short(rhs, 80)
             def fn():
@@ -434,6 +459,8 @@ def check(case, ctx):
     elif spelling == 'ndmask':
         # "changes exactly the cells that the same index would read": a[ndmask] reads the cells in row-major order
         mk2 = np.array(case["mask"], copy=True)
+        if mask_reordered is not None:
+            mk2 = a._constructor(mk2, [ax.copy() for ax in list(a.axes)[::-1]])
         rb, rexc = ctx.call("read-back a[ndmask] after " + label, lambda: tgt[mk2], operands=(tgt,))
         if rexc is not None:
             ctx.v(ID, "readback-raised", "read-back a[ndmask] after %s raised %s: %s" % (label, type(rexc).__name__, str(rexc)[:100]))
